@@ -400,6 +400,10 @@ func (r *runner) tooManyHangs() bool {
 		r.a.incs["run cut short after more than 12 watchdog hits"] = 1
 		return true
 	}
+	if r.a.deaths > 60 {
+		r.a.incs["run cut short after more than 60 worker deaths"] = 1
+		return true
+	}
 	return false
 }
 
